@@ -93,7 +93,7 @@ CHECKS["C18"] = {
     "rule": "Engine B: the repository sources are rewritten at check time (go build -overlay) so that every mutex, atomic, channel, timer, socket and goroutine-spawn "
             "operation is a scheduling point; for each closed scenario (S1 CreatePermission vs lifetime timer, S2 ChannelBind vs lifetime timer, S3 Refresh vs lifetime timer + re-Allocate, "
             "S4 peer datagram vs Refresh0, S5 permission refresh vs permission timer, S6 channel refresh vs channel timer, S7 Connect/duplicate Connect/Refresh on a TCP allocation, "
-            "S8 Server.Close vs request vs peer datagram, S10 two stream clients on one manager; client side: K1 PerformTransaction vs response vs retransmission timer vs Close, K1b two transactions with crossed responses, "
+            "S8 Server.Close vs request vs peer datagram, S10 two stream clients on one manager, S11 inbound peer connection to a TCP allocation vs Refresh 0; client side: K1 PerformTransaction vs response vs retransmission timer vs Close, K1b two transactions with crossed responses, "
             "K2 two WriteTo on one new peer, K3 relayed-socket Close vs WriteTo vs inbound Data indication, K5 ReadFrom vs inbound vs Close, against a scripted TURN server thread; lifecycle callbacks yield) ALL schedules with at most 2 (thorough 3) preemptions are executed "
             "on the real code by prefix replay; timers whose deadline is within 1ms may fire at any point. Verdicts: panic in any thread, deadlock, lock held when its holder exits, "
             "unlock of unlocked mutex, harness thread that must complete but never does. A class is (scenario => sorted verdict set). "
@@ -255,9 +255,13 @@ CHECKS["C12"] = {
             "racing the timer of transmission k or of the final failure, just before / concurrent with the answer}. Concurrent: two transactions whose ids differ in one bit x answer plans x start offset x duplicates x delivery orders x Close. "
             "Oracle: byte-identical requests at exactly t0,+RTO,+2RTO.. capped 1.6 s, at most 7; PerformTransaction returns exactly once at the predicted nanosecond with its own response or the predicted error, never another id; "
             "afterwards a late response for every finished id is delivered and a fresh transaction must still complete (read loop alive), then Close, 10 s of silence, sockets closed, bubble drains. "
+            "Fire-and-forget (ignoreResult): RTO x what the caller does with its message afterwards {nothing, a fresh message, msg.Build in place for a second transaction, overwrite msg.Raw} x instant of the reuse "
+            "(at once, between transmissions k and k+1) x answers to either transaction: every transmission byte-identical to the request as handed over, on its own timetable, table empty, read loop alive. "
+            "Engine B (sched): K1 response vs retransmission timer vs duplicate vs Close, K1b crossed responses, K6 Close racing the start of a transaction (insert / first write / timer arming / wait), <= 2/3 preemptions. "
             "A class is (answer kind, noise, write-error kind, close kind -> observed completion).",
     "parts": [A("single", "./checks/c12", "TestC12Single", budget={"quick": 60, "thorough": 900}),
               A("concurrent", "./checks/c12", "TestC12Concurrent", budget={"quick": 60, "thorough": 900}),
+              A("forget", "./checks/c12", "TestC12Forget", budget={"quick": 60, "thorough": 900}),
               A("sched", "./checks/bsem", "TestC12Sched", overlay=True, gomaxprocs=1, budget={"quick": 90, "thorough": 1500})],
 }
 
